@@ -433,11 +433,22 @@ def sc_tds_criteria(p, v, probes):
     elif seg is not None and seg['ret']:
         # success: re-examine
         probes['success_reexamined'] = probes.get('success_reexamined', 0) + 1
-        from andes.routines.criteria import deltadelta
         if ss.SynGen.n and ss.TDS.config.criteria:
-            if deltadelta(ss.dae.x[ss.SynGen.delta_addr], ss.TDS.config.ddelta_limit) is False:
-                v.append(V('success_valid', 'TDS.run() True although the stability criterion is violated at the end', cls=p['cls'],
-                           what='criteria'))
+            # the documented criterion re-evaluated by the simulator from the machines themselves (not from the address list the
+            # routine keeps): rotor angles of the in-service synchronous machines of the one island this plan leaves intact
+            deltas = []
+            for mdl in ss.SynGen.models.values():
+                for i in range(mdl.n):
+                    if float(mdl.u.v[i]) == 1:
+                        deltas.append(float(ss.dae.x[int(mdl.delta.a[i])]))
+            one_island = len(getattr(ss.Bus, 'island_sets', []) or []) <= 1 and not len(getattr(ss.Bus, 'islanded_buses', []) or [])
+            if one_island and len(deltas) >= 2:
+                spread = float(np.rad2deg(max(deltas) - min(deltas)))
+                probes['criterion_reexamined'] = probes.get('criterion_reexamined', 0) + 1
+                if spread >= float(ss.TDS.config.ddelta_limit):
+                    v.append(V('success_valid', 'TDS.run() True although the rotor angles of the in-service machines are %.1f degrees apart at '
+                               'the end (stability criterion: %.0f degrees)' % (spread, float(ss.TDS.config.ddelta_limit)), cls=p['cls'],
+                               what='criteria'))
     v += tdssim.o_success_consistent(hist)
     return [p['case'], p['dur']], hist
 
